@@ -21,7 +21,7 @@ ASSUMPTIONS = [
     "skipped empty labels, high*65536+low, sum with None counted 0, round(v*i), documented thresholds of grid_in_out) are the oracle's",
     "a rounding tie within 1e-6 accepts either neighbour",
 ]
-MUST = ["bitmap4_whole_table_checked", "label_pairs_checked", "bitmap4_checked", "bitmap22_checked", "nonempty_bitmap_labels", "sum_checked", "product_checked",
+MUST = ["end_to_end_results", "end_to_end_with_mppt_block", "end_to_end_labels", "bitmap4_whole_table_checked", "label_pairs_checked", "bitmap4_checked", "bitmap22_checked", "nonempty_bitmap_labels", "sum_checked", "product_checked",
         "grid_in_out_checked", "house_consumption_checked", "es_signed_powers_checked"]
 EXHAUSTIVE = {"quick": False, "thorough": True}
 
@@ -243,11 +243,115 @@ def check_formulas(spec, part):
                                  ("ppv", "ppv1", "ppv2", "house_consumption", "grid_in_out", "active_power", "pbattery1", "pgrid") if k in d}})
 
 
+def check_e2e(spec, part):
+    """the relations on what read_runtime_data() finally returns (all blocks of the model merged), against a simulated inverter"""
+    from .. import configs, engine, models
+    g = env.goodwe()
+    rnd = random.Random(spec["seed"])
+    for i in range(spec["n"]):
+        fam = rnd.choice(("ET", "ET", "ET", "DT", "ES"))
+        if fam == "ET":
+            cfg = {"family": "ET", "tag": rnd.choice(("ETU", "ETT", "EHU", "BTU", "29K9ET", "25KET", "HSB")), "rated": rnd.choice((5000, 20000, 30000)),
+                   "refused": [b for b in configs.ET_REFUSABLE if rnd.random() < 0.15], "battery": rnd.choice((0, 1, 1))}
+        elif fam == "DT":
+            cfg = {"family": "DT", "tag": rnd.choice(("DTU", "MSU", "DSN")), "rated": 0, "refused": [], "battery": 0}
+        else:
+            cfg = {"family": "ES", "tag": "ESU", "rated": 0, "refused": [], "battery": 1, "fw": rnd.choice(("02525", "2225F"))}
+        port = 8899 if fam == "ES" else rnd.choice((8899, 502))
+        style = rnd.choice(("random", "mixed", "mixed", "sentinel"))
+        sim = configs.make_sim(cfg, rnd=rnd, style=style)
+        if fam == "ET":
+            sim.regs[35303] = rnd.choice((1, 2, 3, 4, 5, 6, 8, rnd.randrange(65536)))       # pv_channel
+            sim.regs[35184] = rnd.choice((0, 1, 2, 3, 0xFFFF, cfg["battery"]))
+            if rnd.random() < 0.5:
+                sim.regs[35140] = rnd.choice((-92, -91, -90, -89, 0, 89, 90, 91)) & 0xFFFF
+        res = {}
+
+        async def flow(loop):
+            inv = models.family_cls(g, fam)("inv0", port, 0, 1, 0)
+            res["inv"] = inv
+            await inv.read_device_info()
+            res["polls"] = []
+            for _ in range(2):
+                try:
+                    res["polls"].append(await inv.read_runtime_data())
+                except g.InverterError:
+                    res["polls"].append(None)
+            res["sensors"] = inv.sensors()
+
+        run = engine.run_custom({("inv0", port): sim}, flow, vtime_cap=3000, tx_cap=3000)
+        part.evaluations += 1
+        case = {"e2e": True, "seed": spec["seed"], "i": i}
+        if run.stop or run.error is not None:
+            part.violate(f"C13/{fam}/end-to-end-failed", f"{cfg} port {port}: {run.stop or repr(run.error)}", case)
+            continue
+
+        def z(v):
+            return 0 if v is None else v
+        for d in res["polls"]:
+            if d is None:
+                continue
+            part.count("end_to_end_results")
+
+            def bad(rel, msg):
+                part.violate(f"C13/{fam}/formula/{rel}", f"{fam} {cfg.get('tag')} rated={cfg.get('rated')} read_runtime_data(): {msg}", case)
+            if fam == "ET":
+                # (string powers that this model does not list are still part of the response: documented reading of their registers)
+                allsn = {sn.id_: sn for sn in getattr(res["inv"], "_ET__all_sensors", ())}
+                parts = []
+                for k in (1, 2, 3, 4):
+                    if f"ppv{k}" in d:
+                        parts.append(d[f"ppv{k}"])
+                    else:
+                        sn = allsn[f"ppv{k}"]
+                        try:
+                            parts.append(rs.ref_value(sn, sim.get_bytes(sn.offset, 2)))
+                        except rs.Undecodable:
+                            parts.append(None)
+                if d["ppv"] != sum(max(0, z(p)) for p in parts):
+                    bad("ppv", f"ppv={d['ppv']} but ppv1..4={parts} (pv_channel={d.get('pv_channel')}, ppv_total={d.get('ppv_total')})")
+                hc = sum(z(p) for p in parts) + d["pbattery1"] - d["active_power"]
+                if d["house_consumption"] != hc:
+                    bad("house_consumption", f"house_consumption={d['house_consumption']} but ppv1..4 + pbattery1 - active_power = {hc} "
+                                              f"(battery_mode={d.get('battery_mode')})")
+                ap = d["active_power"]
+                if d["grid_in_out"] != (2 if ap < -90 else (1 if ap >= 90 else 0)):
+                    bad("grid_in_out", f"grid_in_out={d['grid_in_out']} but active_power={ap}")
+                if "pmppt1" in d:
+                    part.count("end_to_end_with_mppt_block")
+            elif fam == "DT":
+                # (models with fewer strings do not list ppv3: the sum is then not decidable from the result alone)
+                if all(k in d for k in ("ppv1", "ppv2", "ppv3")) and d["ppv"] != d["ppv1"] + d["ppv2"] + d["ppv3"]:
+                    bad("ppv", f"ppv={d['ppv']} but ppv1+ppv2+ppv3={d['ppv1'] + d['ppv2'] + d['ppv3']}")
+                for k, (v, c) in {"ppv1": ("vpv1", "ipv1"), "pgrid1": ("vgrid1", "igrid1")}.items():
+                    if all(x in d for x in (k, v, c)) and not rs.round_half_ok(d[k], V10(d[v]) * V10(d[c])):
+                        bad(k, f"{k}={d[k]} but {v}={d[v]} x {c}={d[c]}")
+            else:
+                if d["ppv"] != d["ppv1"] + d["ppv2"]:
+                    bad("ppv", f"ppv={d['ppv']} but ppv1+ppv2={d['ppv1'] + d['ppv2']}")
+                if d["plant_power"] != z(d["pload"]) + z(d["pback_up"]):
+                    bad("plant_power", f"plant_power={d['plant_power']} but pload={d['pload']} + pback_up={d['pback_up']}")
+                if d["house_consumption"] != d["ppv1"] + d["ppv2"] + d["pbattery1"] - d["pgrid"]:
+                    bad("house_consumption", f"house_consumption={d['house_consumption']} but ppv1+ppv2+pbattery1-pgrid={d['ppv1'] + d['ppv2'] + d['pbattery1'] - d['pgrid']}")
+            # labels next to their codes in the merged result
+            ids = {}
+            for sn in res["sensors"]:
+                ids.setdefault(sn.id_, sn)
+            for sn in res["sensors"]:
+                if type(sn).__name__ in ("Enum", "EnumH", "EnumL", "Enum2") and sn.id_.endswith("_label") and sn.id_[:-6] in d and sn.id_ in d:
+                    part.count("end_to_end_labels")
+                    if d[sn.id_] != sn._labels.get(d[sn.id_[:-6]]):
+                        part.violate(f"C13/{fam}/label/{sn.id_}", f"{fam} read_runtime_data(): {sn.id_}={d[sn.id_]!r} but {sn.id_[:-6]}={d[sn.id_[:-6]]!r}", case)
+        part.see(f"e2e|{fam}|{cfg.get('tag')}|{cfg.get('rated')}|{style}")
+
+
 def plan(tier, seed):
     nsh = 8 if tier == "quick" else 16
     specs = [{"mode": "labels", "seed": f"{seed}:C13:L:{i}", "full": tier != "quick", "shards": nsh, "shard": i} for i in range(nsh)]
     for i in range(4 if tier == "quick" else 16):
         specs.append({"mode": "formulas", "seed": f"{seed}:C13:F:{i}", "n": 800 if tier == "quick" else 8000})
+    for i in range(4 if tier == "quick" else 16):
+        specs.append({"mode": "e2e", "seed": f"{seed}:C13:E:{i}", "n": 40 if tier == "quick" else 400})
     return specs
 
 
@@ -256,6 +360,8 @@ def run_shard(spec):
     if spec["mode"] == "labels":
         check_labels(spec, part)
         part.sample({"mode": "labels", "evaluations": part.evaluations, "counters": dict(part.counters)})
+    elif spec["mode"] == "e2e":
+        check_e2e(spec, part)
     else:
         check_formulas(spec, part)
     return part
@@ -264,6 +370,9 @@ def run_shard(spec):
 def replay(case):
     g = env.goodwe()
     part = Part()
+    if case.get("e2e"):
+        check_e2e({"seed": case["seed"], "n": case["i"] + 1}, part)
+        return [{"key": v["key"], "msg": v["msg"]} for v in part.violations]
     if case.get("formula"):
         MR = g.inverter.Inverter._map_response
         fam = case["family"]
